@@ -30,6 +30,8 @@ func runC05(p *eng.Prog, r *eng.Report, tier string) {
 	closerTypestate(c, "C05.2")
 	c05DeferWriter(c)
 	closerFresh(c, "C05.2")
+	attrCopyLoopsComplete(c, "C05.11")
+	flusherNotHidden(c, "C05.12")
 	c05Send(c)
 	c05Marshal(c)
 	c05MarshalAdapters(c)
@@ -780,4 +782,80 @@ func c05MarshalAdapters(c *cx) {
 		}
 		c.r.Floor(id, "byte decoders built by tokenDecoder", n, 1)
 	}
+}
+
+// attrCopyLoopsComplete (C05.11/C07.10): stanzaEncoder.EncodeToken rebuilds
+// the attribute list of a start element by appending inside a range over the
+// token's attributes; such a loop is also the copy, so nothing may leave it
+// early: a break "because id and from were both found" drops every attribute
+// that follows them (the type of a reply encoded from a struct: id, to, from,
+// type).
+func attrCopyLoopsComplete(c *cx, id string) {
+	f := c.fn(id, "", "(*stanzaEncoder).EncodeToken")
+	if f == nil {
+		return
+	}
+	n := 0
+	f.WalkBody(func(nd ast.Node) bool {
+		rs, ok := nd.(*ast.RangeStmt)
+		if !ok || !strings.HasSuffix(types.ExprString(rs.X), ".Attr") {
+			return true
+		}
+		// a copying loop: its body appends the range value to a list
+		copies := false
+		ast.Inspect(rs.Body, func(x ast.Node) bool {
+			if cl, ok := x.(*ast.CallExpr); ok && f.CalleeID(cl) == "builtin.append" && len(cl.Args) == 2 {
+				if v, ok := ast.Unparen(cl.Args[1]).(*ast.Ident); ok && rs.Value != nil {
+					if rv, ok := rs.Value.(*ast.Ident); ok && f.Info().ObjectOf(v) == f.Info().ObjectOf(rv) {
+						copies = true
+					}
+				}
+			}
+			return true
+		})
+		if !copies {
+			return true
+		}
+		n++
+		early := loopEarlyExit(f, rs)
+		why := ""
+		if early != nil {
+			why = "the statement at " + c.p.Pos(early.Pos()) + " leaves the loop that copies the attributes: the attributes after that point are dropped from the element"
+		}
+		c.r.Check(id, f, "attribute copy loop runs to the end", "O: no return, break or goto leaves a loop that copies the token's attributes", rs.Pos(), early == nil, why)
+		return true
+	})
+	c.r.Floor(id, "attribute copy loops in EncodeToken", n, 1)
+}
+
+// flusherNotHidden (C05.12): marshal.EncodeXML / EncodeXMLElement flush the
+// writer only if it implements xmlstream.Flusher (a dynamic type assertion).
+// At the session's call sites the argument's STATIC type therefore has a Flush
+// method (the session encoder, xmlstream.TokenWriteFlusher): a wrapper typed
+// as a plain TokenWriter hides the Flusher, the flush silently disappears and
+// a successful Encode leaves nothing on the wire.
+func flusherNotHidden(c *cx, id string) {
+	n := 0
+	for _, f := range c.allFns() {
+		// (the handler's encoder, responseChecker, is flushed by the serve loop
+		// after the handler has returned)
+		if f.Body == nil || !strings.HasPrefix(f.Short, "xmpp.(*Session).") {
+			continue
+		}
+		for _, cl := range f.AllCalls() {
+			cid := f.CalleeID(cl)
+			if cid != "internal/marshal.EncodeXML" && cid != "internal/marshal.EncodeXMLElement" {
+				continue
+			}
+			n++
+			t := f.Info().TypeOf(cl.Args[0])
+			ok := t != nil && types.NewMethodSet(t).Lookup(nil, "Flush") != nil
+			why := ""
+			if !ok {
+				why = "the argument has static type " + eng.TypeStr(t) + " without a Flush method: whether the element is flushed depends on what the value happens to be"
+			}
+			c.r.Check(id, f, "writer handed to "+cid, "K: the static type of the writer handed to the marshalling helper has a Flush method", cl.Pos(), ok, why)
+		}
+	}
+	c.r.Floor(id, "marshalling helper calls in the session", n, 2)
 }
